@@ -54,3 +54,16 @@ Example C05_example :
     [(7%N,[1;10]); (2%N,[2;20]); (7%N,[3;30]); (2%N,[4;40]); (7%N,[5;50])]%Z
   = [([2;20],[4]); ([1;10],[3]); ([3;30],[5])]%Z.
 Proof. vm_compute. reflexivity. Qed.
+
+(* ---- the fitted matrix: Gram matrices are invariant under any simultaneous permutation of
+   the training pairs, so every regressor that is a function of G = Theta_+ Psi^T and
+   H = Psi Psi^T (EDMD and the LMI family) returns the same matrix after relabelling /
+   reordering (which, by C05_relabel, only permutes the pairs).  mathcomp, any commutative
+   ring, all sizes. *)
+From mathcomp Require Import all_ssreflect all_algebra fingroup perm.
+From PK.Alg Require Import Perm.
+Local Open Scope ring_scope.
+Theorem C05_gram_perm (R : comRingType) (m n q : nat) (s : 'S_q) (A : 'M[R]_(m,q)) (B : 'M[R]_(n,q)) :
+  (A *m perm_mx s) *m (B *m perm_mx s)^T = A *m B^T.
+Proof. exact: Perm.gram_perm. Qed.
+Print Assumptions C05_gram_perm.
